@@ -422,7 +422,8 @@ func (w *World) exchange(r Req, wi, idx int, before string) (*Case, string) {
 			}
 		case "scale":
 			if ok200 {
-				c.Effect = w.countBase(baseBefore) == int(c.Call.A)
+				// what a successful scale does to the replica set is the subject of C13, not judged here
+				_ = baseBefore
 			} else {
 				c.Effect = after == before
 			}
@@ -453,7 +454,13 @@ func (w *World) exchange(r Req, wi, idx int, before string) (*Case, string) {
 		for n, exp := range wsExpected {
 			got := append([]string{}, wsMsgs[n]...)
 			exp = append([]string{}, exp...)
-			if strings.Count(","+r.Name+",", ","+n+",") > 1 { // one connector per occurrence: interleaved
+			occ := 0
+			for _, x := range strings.Split(r.Name, ",") {
+				if x == n {
+					occ++
+				}
+			}
+			if occ > 1 { // one connector per occurrence: interleaved
 				sort.Strings(got)
 				sort.Strings(exp)
 			}
